@@ -29,3 +29,22 @@ theorem C17_shift_automorphism (shape periodic : List Nat) (a k : Nat) (ha : per
     (c d : List Nat) (hc : InRange shape c) (hd : InRange shape d) :
     d ∈ Grid.nbrsC shape periodic c ↔ shiftC shape a k d ∈ Grid.nbrsC shape periodic (shiftC shape a k c) :=
   shift_adj shape periodic a k ha c d hc hd
+
+/-- **C17 (shift invariance of the whole computation).** Cyclically shifting the data by any
+amount `k` along a declared periodic axis `a` yields the same hierarchy on the shifted pixels:
+the run on the shifted values (`val'`), processing the shifted order, is similar (same regions,
+same parent relation) to the original run — for every shape (axes of length 1 and 2 included),
+every set of periodic axes, every value assignment and all built-in criteria (seeds are shifted
+with the data).  For distinct values the shifted order is the only admissible one (C04). -/
+theorem C17_shift_invariance (shape periodic : List Nat) (a k : Nat) (ha : periodic.contains a = true)
+    (val : Nat → Int) (order : List Nat) (cs : List Crit)
+    (horder : ∀ p ∈ order, p < Grid.size shape)
+    (hseeds : ∀ c ∈ cs, ∀ s ∈ P10.seedsOf c, s < Grid.size shape)
+    (val' : Nat → Int)
+    (hval : ∀ p ∈ order, val' (P19.liftC shape shape (shiftC shape a k) p) = val p) :
+    P10.SimL (P19.liftC shape shape (shiftC shape a k))
+      (run (envOf val (Grid.nbrs shape periodic) cs) order)
+      (run (envOf val' (Grid.nbrs shape periodic)
+        (cs.map (P10.critRename (P19.liftC shape shape (shiftC shape a k)))))
+        (order.map (P19.liftC shape shape (shiftC shape a k)))) :=
+  P19.shift_invariance shape periodic a k ha val order cs horder hseeds val' hval
